@@ -146,6 +146,7 @@ func (m *toolManager) getTools() []*Tool {
 
 	tools := make([]*Tool, 0, len(m.tools))
 	for _, registeredTool := range m.tools {
+		verifEvent("reg.list.item", m)
 		if registeredTool != nil && registeredTool.Tool != nil {
 			tools = append(tools, registeredTool.Tool)
 		}
